@@ -445,6 +445,22 @@ def c16(tier):
         p = s.sid.split("_")
         return p[0] + "_" + p[1]     # (enum, configuration)
     compare_transcripts(res, merged, subs, group, "scope-dependent-behaviour")
+    # Informational only (never part of the verdict, see DESIGN.md §12.11): scope dependences that lie OUTSIDE the property as stated —
+    # (a) lower-case user constants named like local bindings/parameters of the generated code, (b) a user trait whose by-value method is
+    # named like an inherent &self method of a core type and is implemented for that type.
+    probes = {
+        "user-const-named-like-generated-local": "#![allow(warnings)]\nmod m { use enum_tools::EnumTools; pub const value: u8 = 0; pub const r: u8 = 0; pub const s: u8 = 0;\n"
+                                                 "#[derive(Clone, Copy, EnumTools)] #[enum_tools(try_from, from_str, next)] #[repr(i8)] pub enum E { A = 1, B = 5 } }\n",
+        "user-trait-method-hijacks-inherent-method": "#![allow(warnings)]\nmod m { use enum_tools::EnumTools; pub trait H { fn contains(self, _x: &i8) -> bool; }\n"
+                                                     "impl H for ::core::ops::RangeInclusive<i8> { fn contains(self, _x: &i8) -> bool { false } }\n"
+                                                     "#[derive(Clone, Copy, EnumTools)] #[enum_tools(try_from)] #[repr(i8)] pub enum E { A = 1, B = 5 } }\n"
+                                                     "pub fn probe() -> bool { m::E::try_from(5).is_some() }\n",
+    }
+    obs = {}
+    for k, src in probes.items():
+        v = e2.compile_one(src)
+        obs[k] = "compiles" if v.ok else "does not compile: %s" % v.errors[:1]
+    res.extra["observations_outside_property"] = obs
     res.extra["scopes"] = [s[0] for s in scopes] + ["%d single-name shadows" % len(singles)]
     res.extra["cover_sizes"] = {k: len(v) for k, v in covers.items() if not k.endswith(":extra")}
     res.rule = ("states = (scope, configuration, enum) subjects' explorer states + no_std modules judged by rustc; every subject must compile and give the "
